@@ -6,6 +6,11 @@ import Driver.C04
 import Driver.CMD
 import Driver.C06
 import Driver.C10
+import Driver.C19
+import Driver.C20
+import Driver.C07
+import Driver.C11
+import Driver.DYNBT
 open Driver
 
 def dispatch (op : String) (args : List String) (obs : String) : Option Verdict :=
@@ -16,6 +21,11 @@ def dispatch (op : String) (args : List String) (obs : String) : Option Verdict 
   <|> (Driver.CMD.handle op args obs)
   <|> (Driver.C06.handle op args obs)
   <|> (Driver.C10.handle op args obs)
+  <|> (Driver.C19.handle op args obs)
+  <|> (Driver.C20.handle op args obs)
+  <|> (Driver.C07.handle op args obs)
+  <|> (Driver.C11.handle op args obs)
+  <|> (Driver.DYNBT.handle op args obs)
 
 def processLine (line : String) : String :=
   let line := line.trimRight
